@@ -64,6 +64,16 @@ pub(crate) fn bbox_write_z_range_to<PointType: HasZ, W: Write>(
     Ok(())
 }
 
+/// Capacity to reserve for a collection a file says has `announced_len` elements.
+///
+/// That number comes from the file, it is not to be trusted: a few bytes can
+/// announce billions of elements. Only a small amount is reserved up front,
+/// the collection grows as the elements are really read from the source.
+pub(crate) fn bounded_capacity<T>(announced_len: usize) -> usize {
+    const MAX_RESERVED_BYTES: usize = 1024;
+    announced_len.min(MAX_RESERVED_BYTES / std::mem::size_of::<T>().max(1))
+}
+
 pub(crate) fn invalid_data(msg: &'static str) -> std::io::Error {
     std::io::Error::new(std::io::ErrorKind::InvalidData, msg)
 }
@@ -76,7 +86,8 @@ where
     PointType: HasMutXY + Default,
     T: Read,
 {
-    let mut points = Vec::<PointType>::with_capacity(num_points as usize);
+    let mut points =
+        Vec::<PointType>::with_capacity(bounded_capacity::<PointType>(num_points as usize));
     for _ in 0..num_points {
         let mut p = PointType::default();
         *p.x_mut() = source.read_f64::<LittleEndian>()?;
@@ -110,7 +121,7 @@ pub(crate) fn read_parts<T: Read>(
     source: &mut T,
     num_parts: i32,
 ) -> Result<Vec<i32>, std::io::Error> {
-    let mut parts = Vec::<i32>::with_capacity(num_parts as usize);
+    let mut parts = Vec::<i32>::with_capacity(bounded_capacity::<i32>(num_parts as usize));
     for _ in 0..num_parts {
         parts.push(source.read_i32::<LittleEndian>()?);
     }
@@ -208,7 +219,9 @@ impl<'a, PointType: Default + HasMutXY, R: Read> MultiPartShapeReader<'a, PointT
             return Err(invalid_data("negative number of parts or points"));
         }
         let parts_array = read_parts(source, num_parts)?;
-        let parts = Vec::<Vec<PointType>>::with_capacity(num_parts as usize);
+        let parts = Vec::<Vec<PointType>>::with_capacity(bounded_capacity::<Vec<PointType>>(
+            num_parts as usize,
+        ));
         Ok(Self {
             num_points,
             num_parts,
